@@ -532,6 +532,14 @@ PROPS["C07"] = {
           ["DataChannelOpen::unmarshal", "DataChannelAck::unmarshal"],
           "verbatim DCEP OPEN / ACK decoders against the assumed bytes::Bytes contract: label_len + protocol_len is checked before both split_to calls, no read past the end, for every message length (the Kani stand-in did not finish at 14 symbolic bytes)",
           min_verified=4),
+        V("TURN relayed data / ChannelData: classified without out-of-bounds read (Verus)", "turn_relay_total", "quick", "proof",
+          ["IceTransport::handle_turn_packet", "handle_packet (first statements, up to the classifying octet)"],
+          "verbatim handle_turn_packet and the head of handle_packet, read as the sequential code of one task (async/.await dropped, one let-chain read as a tuple pattern): for every datagram from the TURN server — ChannelData with any declared length, a Data indication whose DATA attribute is any byte string including the empty one — the ChannelData slice is in bounds and the inner datagram's first octet is read only if it exists",
+          min_verified=2),
+        V("TURN over TCP framing: any frame length, any caller buffer (Verus)", "turn_tcp_frame_total", "quick", "proof",
+          ["TurnClient::recv"],
+          "verbatim TurnClient::recv read as the sequential code of one task (async/.await dropped; tokio's read / read_exact / timeout / Mutex::lock called through assumed contracts: read returns n <= buf.len()): for every 2-octet frame length and every caller buffer the slice buf[offset..len] is in range, the returned length never exceeds the buffer, and the read loop terminates (each round reads at least one octet or fails)",
+          min_verified=1),
     ],
 }
 
